@@ -15,7 +15,8 @@ for cfg in cfgs:
         subprocess.run([os.path.join(root, "target", cfg, "release", "mc"), "check", pid, "--tier", tier], env=env, stdout=subprocess.DEVNULL)
         sigs |= set(open(tf.name).read().split("\n")) - {""}
 for k in kf:
-    if k["property"] != pid or k["status"] != "open":
+    if k["property"] != pid or k["status"] != "open" or k.get("identified_by"):
+        # (findings identified by call site carry no input list)
         continue
     pre = k["signature_prefix"]
     ins = sorted({s[len(pre):].lstrip(":") for s in sigs if s.startswith(pre) and len(s) > len(pre)})
